@@ -173,6 +173,10 @@ func Observed() []string { return observed }
 // Symbolic reports whether the harness runs under the engine.
 func Symbolic() bool { return false }
 
+// CodecFaults(false) makes the engine's marshal stubs (JSON, CBOR, ...) always
+// succeed: the harness assumes that encoding its values does not fail.
+func CodecFaults(on bool) {}
+
 // NativePause widens a race window in native replays (no effect under the
 // engine, where the scheduler explores the interleaving itself).
 func NativePause() {
@@ -401,7 +405,15 @@ func Quiesce(d time.Duration) {
 		time.Sleep(d)
 		return
 	}
-	time.Sleep(300 * time.Millisecond)
+	// natively: 300 ms per requested second, at most 1.5 s
+	n := int(d / time.Second)
+	if n < 1 {
+		n = 1
+	}
+	if n > 5 {
+		n = 5
+	}
+	time.Sleep(time.Duration(n) * 300 * time.Millisecond)
 }
 
 // CallerFile declares what runtime.Caller reports under the engine (natively
